@@ -395,9 +395,9 @@ pub fn gen_c04(rng: &mut Rng, _i: u64, tier: Tier) -> Script {
             spec = Spec::Btype3;
         }
         let mut edge = 0usize;
-        if rng.chance(1, 8) {
+        if rng.chance(1, 5) {
             // the violation sits right at the window edge (e.g. distance 32768 at output position 32767)
-            edge = rng.pick(&[32767usize, 32766, 32760, 32768, 255, 4095]);
+            edge = rng.pick(&[32767usize, 32767, 32766, 32760, 32768, 255, 4095]);
             if rng.chance(2, 3) {
                 spec = Spec::DistBeforeStart;
             }
